@@ -69,6 +69,8 @@ class Sandbox:
         w("invalid_schema_duplicate_type.graphql", "type A { x: Int } type A { y: Int } type Query { a: A }")
         w("typename_query.graphql", "query Q { __typename }")
         w("custom_base_client.py", "class OtherName:\n    pass\n")
+        w("commented_base_client.py", "# class CustomBase used to live here\nimport httpx\n\nclass Other:\n    \"\"\"CustomBase replacement\"\"\"\n    def CustomBase_compat(self):\n        return httpx.AsyncClient\n")
+        w("a_directory/inner.py", "x = 1\n")
         w("not_a_dir.txt", "x")
         # previous generation in the target directory
         w("target/pkg/__init__.py", "# previous generation\n")
@@ -123,6 +125,11 @@ def _violations(sb):
         ("base-client-file-missing", "client", C(base_client_file_path=sb.p("nope.py"), base_client_name="X"), (EX.InvalidConfiguration,)),
         ("base-client-class-missing", "client", C(base_client_file_path=sb.p("custom_base_client.py"), base_client_name="CustomBase"), (EX.InvalidConfiguration,)),
         ("files-to-include-missing", "client", C(files_to_include=[sb.p("nope.py")]), (EX.InvalidConfiguration,)),
+        ("files-to-include-is-a-directory", "client", C(files_to_include=[sb.p("custom_base_client.py"), sb.p("a_directory")]), (EX.InvalidConfiguration,)),
+        ("base-client-name-only-mentioned-in-comments", "client", C(base_client_file_path=sb.p("commented_base_client.py"), base_client_name="CustomBase"),
+         (EX.InvalidConfiguration,)),
+        ("base-client-name-is-a-library-class-used-in-the-file", "client", C(base_client_file_path=sb.p("commented_base_client.py"), base_client_name="AsyncClient"),
+         (EX.InvalidConfiguration,)),
         ("schema-syntax", "client", C(schema_path=sb.p("bad_syntax.graphql")), (EX.InvalidGraphqlSyntax,)),
         ("schema-dir-with-one-bad-file", "client", C(schema_path=sb.p("schema_dir_bad")), (EX.InvalidGraphqlSyntax,)),
         ("schema-dir-files-invalid-alone-valid-when-joined", "client", C(schema_path=sb.p("schema_dir_split")), (EX.InvalidGraphqlSyntax,)),
@@ -148,6 +155,8 @@ def _violations(sb):
             n = f[len("invalid_schema_"):-len(".graphql")]
             v.append((f"invalid-schema:{n}", "client", C(schema_path=sb.p(f), queries_path=sb.p("typename_query.graphql")), (CODEGEN,)))
             v.append((f"invalid-schema:{n}:graphqlschema", "schema", S(schema_path=sb.p(f)), (CODEGEN,)))
+            v.append((f"invalid-schema:{n}:custom-operations-without-queries", "client",
+                      C(schema_path=sb.p(f), queries_path=_DROP, enable_custom_operations=True), (CODEGEN,)))
     return v
 
 
